@@ -212,6 +212,308 @@ Example C14_ex_first_needs_nulls_at_ends :
   /\ filter (first_of_run_b [Some 1; None; Some 1]) (seq 0 3) = [0; 2]%nat.
 Proof. vm_compute. auto. Qed.
 
+
+(* ================================================================================================== *)
+(* Audit (notes/C14.md, "Audit matrix"): the same statements for EVERY carrier the code is generic over.
+   `cut1 ltb leb` / `uidx_first eqb` ... are the model of Model/Binning.v at an arbitrary element type A with its own
+   comparisons; `gcontains` / `gascending` (Proofs/Audit14.v) are the specification written with those comparisons over
+   the carrier extended by -inf / +inf.  CutLaws / EqLaws = strict weak order / partial equivalence on the non-null
+   elements; they hold at Z (i32, i64, u64, usize) and at binary64 (f64; f32 values are binary64 values).        *)
+From Coq Require Import Floats.
+From Tevec Require Import Base.Num Base.F64 Spec.ExtremaOrd Proofs.Audit14.
+
+(* (17) first match wins and Err iff no interval contains the value: ANY carrier, ANY comparison functions (no order
+        law at all: also unsorted / repeated / NaN edges, also Some(NaN) values) *)
+Theorem C14_cut_first_match_any_carrier :
+  forall (A L : Type) (ltb leb : A -> A -> bool) (tmin tmax : A) (right add_bounds : bool)
+         (edges : list A) (labels : list L) (v : A) (l : L),
+    count_ok add_bounds edges labels = true ->
+    (cut1 ltb leb tmin tmax right add_bounds edges labels (Some v) = Lab l
+     <-> exists j, gcontains ltb leb right add_bounds edges j v /\ nth_error labels j = Some l
+                   /\ forall j', (j' < j)%nat -> ~ gcontains ltb leb right add_bounds edges j' v).
+Proof. intros; apply g_cut1_first_match; assumption. Qed.
+
+Theorem C14_cut_err_iff_any_carrier :
+  forall (A L : Type) (ltb leb : A -> A -> bool) (tmin tmax : A) (right add_bounds : bool)
+         (edges : list A) (labels : list L) (v : A),
+    count_ok add_bounds edges labels = true ->
+    (cut1 ltb leb tmin tmax right add_bounds edges labels (Some v) = ErrItem
+     <-> forall j, ~ gcontains ltb leb right add_bounds edges j v).
+Proof. intros; apply g_cut1_err_iff; assumption. Qed.
+
+(* (18) on an ordered carrier: label j iff interval j contains v; that interval is unique; with open bounds every
+        non-null value is labelled (no sortedness needed for the last one) *)
+Theorem C14_cut_label_iff_ordered_carrier :
+  forall (A L : Type) (ltb leb : A -> A -> bool) (ok : A -> Prop), CutLaws ltb leb ok ->
+  forall (tmin tmax : A) (right add_bounds : bool) (edges : list A) (labels : list L) (v : A) (l : L),
+    Forall ok edges -> ok v -> gascending ltb edges -> count_ok add_bounds edges labels = true ->
+    (cut1 ltb leb tmin tmax right add_bounds edges labels (Some v) = Lab l
+     <-> exists j, gcontains ltb leb right add_bounds edges j v /\ nth_error labels j = Some l).
+Proof. intros A L ltb leb ok CL; intros; apply (g_cut1_label_iff ltb leb ok CL); assumption. Qed.
+
+Theorem C14_cut_bin_unique_ordered_carrier :
+  forall (A : Type) (ltb leb : A -> A -> bool) (ok : A -> Prop), CutLaws ltb leb ok ->
+  forall (right add_bounds : bool) (edges : list A) (j j' : nat) (v : A),
+    Forall ok edges -> ok v -> gascending ltb edges ->
+    gcontains ltb leb right add_bounds edges j v -> gcontains ltb leb right add_bounds edges j' v -> j = j'.
+Proof. intros A ltb leb ok CL; intros; eapply (gcontains_unique ltb leb ok CL); eassumption. Qed.
+
+Theorem C14_cut_open_bounds_total_ordered_carrier :
+  forall (A L : Type) (ltb leb : A -> A -> bool) (ok : A -> Prop), CutLaws ltb leb ok ->
+  forall (tmin tmax : A) (right : bool) (edges : list A) (labels : list L) (v : A),
+    Forall ok edges -> ok v ->
+    (exists j, gcontains ltb leb right true edges j v) /\
+    (count_ok true edges labels = true -> exists l, cut1 ltb leb tmin tmax right true edges labels (Some v) = Lab l).
+Proof.
+  intros A L ltb leb ok CL tmin tmax right edges labels v Hok Hv. split.
+  - apply (g_open_bounds_contains ltb leb ok CL); assumption.
+  - intros Hc. apply (g_cut1_open_total ltb leb ok CL); assumption.
+Qed.
+
+(* (19) what must NOT happen (any carrier, no law): a label that is not one of the given labels; a result that depends
+        on the materialised T::MIN / T::MAX; an output of another length, an item at another position, a null label for
+        a non-null value or a non-null label / Err for a null *)
+Theorem C14_cut_label_is_a_given_label :
+  forall (A L : Type) (ltb leb : A -> A -> bool) (tmin tmax : A) (right add_bounds : bool)
+         (edges : list A) (labels : list L) (x : option A) (l : L),
+    cut1 ltb leb tmin tmax right add_bounds edges labels x = Lab l -> In l labels.
+Proof. intros A L ltb leb; exact (g_cut1_label_from_labels ltb leb). Qed.
+
+Theorem C14_cut_type_bounds_irrelevant :
+  forall (A L : Type) (ltb leb : A -> A -> bool) (tmin tmax tmin' tmax' : A) (right add_bounds : bool)
+         (edges : list A) (labels : list L) (x : option A),
+    count_ok add_bounds edges labels = true ->
+    cut1 ltb leb tmin tmax right add_bounds edges labels x = cut1 ltb leb tmin' tmax' right add_bounds edges labels x.
+Proof. intros; apply g_cut1_bounds_irrelevant; assumption. Qed.
+
+Theorem C14_cut_shape_any_carrier :
+  forall (A L : Type) (ltb leb : A -> A -> bool) (tmin tmax : A) (right add_bounds : bool)
+         (edges : list A) (labels : list L) (xs : list (option A)),
+    (vcut ltb leb tmin tmax right add_bounds edges labels xs = None <-> count_ok add_bounds edges labels = false) /\
+    (forall its, vcut ltb leb tmin tmax right add_bounds edges labels xs = Some its ->
+       length its = length xs /\
+       forall i, nth_error its i
+                 = option_map (cut1 ltb leb tmin tmax right add_bounds edges labels) (nth_error xs i)) /\
+    (forall its i, vcut ltb leb tmin tmax right add_bounds edges labels xs = Some its ->
+       (nth_error its i = Some NullLab <-> nth_error xs i = Some None)).
+Proof. intros; apply g_vcut_shape. Qed.
+
+(* (20) the laws hold on the carriers of the code: every `Num` carrier satisfying the order laws of Spec/ExtremaOrd.v
+        (the premise used by C03), in particular Z and binary64 *)
+Theorem C14_carrier_laws :
+  (forall (A : Type) (NA : Num A), OrdLaws A ->
+     CutLaws (A := A) nltb nleb num_ok /\ EqLaws (A := A) neqb num_ok) /\
+  (CutLaws Z.ltb Z.leb (fun _ => True) /\ EqLaws Z.eqb (fun _ => True)) /\
+  (CutLaws PrimFloat.ltb PrimFloat.leb f64_ok /\ EqLaws PrimFloat.eqb f64_ok).
+Proof.
+  split; [|split].
+  - intros A NA H. split; [exact (cutlaws_of_ordlaws H)|exact (eqlaws_of_ordlaws H)].
+  - split; [exact cutlaws_Z|exact eqlaws_Z].
+  - split; [exact cutlaws_f64|exact eqlaws_f64].
+Qed.
+
+(* ... and at Z the generic specification is the integer specification used by (1)-(8) *)
+Theorem C14_generic_spec_at_Z :
+  forall (right add_bounds : bool) (edges : list Z) (j : nat) (v : Z),
+    (gcontains Z.ltb Z.leb right add_bounds edges j v <-> contains right add_bounds edges j v)
+    /\ (gascending Z.ltb edges <-> ascending edges).
+Proof. intros; split; [apply gcontains_Z|apply gascending_Z]. Qed.
+
+(* (21) binary64 (f64 values / edges; NaN is the null and is excluded from the edges) *)
+Theorem C14_cut_label_iff_enclosing_bin_binary64 :
+  forall (L : Type) (tmin tmax : float) (right add_bounds : bool) (edges : list float) (labels : list L)
+         (v : float) (l : L),
+    Forall f64_ok edges -> f64_ok v -> ascendingF edges -> count_ok add_bounds edges labels = true ->
+    (cut1F tmin tmax right add_bounds edges labels (Some v) = Lab l
+     <-> exists j, containsF right add_bounds edges j v /\ nth_error labels j = Some l).
+Proof. intros; apply cut1_label_iff_f64; assumption. Qed.
+
+Theorem C14_cut_enclosing_bin_unique_binary64 :
+  forall (right add_bounds : bool) (edges : list float) (j j' : nat) (v : float),
+    Forall f64_ok edges -> f64_ok v -> ascendingF edges ->
+    containsF right add_bounds edges j v -> containsF right add_bounds edges j' v -> j = j'.
+Proof. intros; eapply contains_unique_f64; eassumption. Qed.
+
+Theorem C14_cut_open_bounds_total_binary64 :
+  forall (L : Type) (tmin tmax : float) (right : bool) (edges : list float) (labels : list L) (v : float),
+    Forall f64_ok edges -> f64_ok v -> count_ok true edges labels = true ->
+    exists l, cut1F tmin tmax right true edges labels (Some v) = Lab l.
+Proof. intros; apply cut1_open_total_f64; assumption. Qed.
+
+(* the premise "no NaN edge" cannot be dropped (outside the quantifier: "ascending edge vectors") *)
+Theorem C14_nan_edge_is_outside_the_property :
+  cut1F (L := Z) neg_infinity infinity true true [nan] [100; 101] (Some one) = ErrItem
+  /\ count_ok true [nan] [100; 101] = true /\ ~ f64_ok nan.
+Proof. split; [exact nan_edge_loses_totality|]. split; [reflexivity|]. unfold f64_ok. vm_compute. discriminate. Qed.
+
+(* ---- unique, every carrier ------------------------------------------------------------------------ *)
+
+(* (22) no law at all (any `==`, any series, nulls anywhere): every reported index is a position of the input that
+        holds a non-null value - never a null, never out of range - and the indices are strictly ascending *)
+Theorem C14_unique_idx_valid_positions :
+  forall (A : Type) (eqb : A -> A -> bool) (xs : list (option A)),
+    (forall k, In k (uidx_first eqb xs) -> (k < length xs)%nat /\ exists v, nth_error xs k = Some (Some v)) /\
+    (forall k, In k (uidx_last eqb xs) -> (k < length xs)%nat /\ exists v, nth_error xs k = Some (Some v)) /\
+    StronglySorted lt (uidx_first eqb xs) /\ StronglySorted lt (uidx_last eqb xs).
+Proof.
+  intros A eqb xs. destruct (g_first_idx_valid eqb xs) as [H1 H2]. destruct (g_last_idx_valid eqb xs) as [H3 H4].
+  split; [exact H1|]. split; [exact H3|]. split; assumption.
+Qed.
+
+(* (23) Keep::Last positionally on every carrier with an equivalence `==`, for EVERY series *)
+Theorem C14_unique_idx_last_positional_any_carrier :
+  forall (A : Type) (eqb : A -> A -> bool) (ok : A -> Prop), EqLaws eqb ok ->
+  forall xs : list (option A), Forall (okc ok) xs ->
+    uidx_last eqb xs = filter (g_last_of_run_b eqb xs) (seq 0 (length xs))
+    /\ forall i, g_last_of_run_b eqb xs i = true <->
+                 exists v, nth_error xs i = Some (Some v)
+                           /\ forall u, nth_error xs (S i) = Some (Some u) -> eqb v u = false.
+Proof.
+  intros A eqb ok EL xs Hok. split; [apply (g_last_positional eqb ok EL); exact Hok|].
+  intros i. apply g_last_of_run_b_spec.
+Qed.
+
+(* (24) Keep::First positionally for EVERY series (the hypothesis `nulls_at_ends` of (16) dropped): index i is
+        reported iff cell i is non-null and the NEAREST NON-NULL cell before it (if any) does not hold an equal value;
+        `last_valid` is that cell *)
+Theorem C14_unique_idx_first_positional_any_series :
+  forall (A : Type) (eqb : A -> A -> bool) (ok : A -> Prop), EqLaws eqb ok ->
+  forall xs : list (option A), Forall (okc ok) xs ->
+    uidx_first eqb xs = filter (g_first_b eqb xs) (seq 0 (length xs))
+    /\ forall i, g_first_b eqb xs i = true <->
+                 exists v, nth_error xs i = Some (Some v)
+                           /\ forall p, last_valid (firstn i xs) None = Some p -> eqb p v = false.
+Proof.
+  intros A eqb ok EL xs Hok. split; [apply (g_first_positional eqb ok EL); exact Hok|].
+  intros i. apply g_first_b_spec.
+Qed.
+
+Theorem C14_nearest_non_null_cell :
+  forall (A : Type) (l : list (option A)) (p : A),
+    last_valid l None = Some p <->
+    exists j, nth_error l j = Some (Some p)
+              /\ forall k, (j < k)%nat -> (k < length l)%nat -> nth_error l k = Some None.
+Proof. intros; apply last_valid_spec. Qed.
+
+(* (25) vsorted_unique returns exactly the values held at the Keep::First indices, in order - for EVERY series: one
+        representative per reported index, each of them a value of the input *)
+Theorem C14_unique_values_are_first_cells :
+  forall (A : Type) (eqb : A -> A -> bool) (ok : A -> Prop), EqLaws eqb ok ->
+  forall xs : list (option A), Forall (okc ok) xs ->
+    vsorted_unique eqb xs = flat_map (cell_vals xs) (uidx_first eqb xs)
+    /\ length (vsorted_unique eqb xs) = length (uidx_first eqb xs)
+    /\ forall v, In v (vsorted_unique eqb xs) -> In (Some v) xs.
+Proof.
+  intros A eqb ok EL xs Hok. split; [apply (g_uniq_is_values_at_first eqb ok EL); exact Hok|].
+  split; [apply (g_uniq_length eqb ok EL); exact Hok|].
+  intros v. apply (g_uniq_values_from_input eqb ok EL); exact Hok.
+Qed.
+
+(* (26) the instances: integers - every series whatsoever; binary64 - every series without Some(NaN) *)
+Theorem C14_unique_positional_integer_any_series :
+  forall xs : list (option Z),
+    firstZ xs = filter (g_first_b Z.eqb xs) (seq 0 (length xs))
+    /\ lastZ xs = filter (g_last_of_run_b Z.eqb xs) (seq 0 (length xs))
+    /\ uniqZ xs = flat_map (cell_vals xs) (firstZ xs).
+Proof.
+  intros xs.
+  assert (Hok : Forall (okc (fun _ : Z => True)) xs) by (apply Forall_forall; intros [v|] _; exact I).
+  split; [exact (g_first_positional Z.eqb _ eqlaws_Z xs Hok)|].
+  split; [exact (g_last_positional Z.eqb _ eqlaws_Z xs Hok)|].
+  exact (g_uniq_is_values_at_first Z.eqb _ eqlaws_Z xs Hok).
+Qed.
+
+Theorem C14_unique_positional_binary64 :
+  forall xs : list (option float), Forall okcF xs ->
+    uidx_first PrimFloat.eqb xs = filter (g_first_b PrimFloat.eqb xs) (seq 0 (length xs))
+    /\ uidx_last PrimFloat.eqb xs = filter (g_last_of_run_b PrimFloat.eqb xs) (seq 0 (length xs))
+    /\ vsorted_unique PrimFloat.eqb xs = flat_map (cell_vals xs) (uidx_first PrimFloat.eqb xs).
+Proof.
+  intros xs Hok.
+  split; [exact (g_first_positional PrimFloat.eqb _ eqlaws_f64 xs Hok)|].
+  split; [exact (g_last_positional PrimFloat.eqb _ eqlaws_f64 xs Hok)|].
+  exact (g_uniq_is_values_at_first PrimFloat.eqb _ eqlaws_f64 xs Hok).
+Qed.
+
+(* (27) the inputs the quantifier excludes, as the code treats them (model `vcut_call`, compared with the real code on
+        Option<i32> edge vectors holding None at every position): the label-count guard comes FIRST - a count that does
+        not match is Err, never a panic, whatever the edges hold; with a matching count a null edge of an Option<_> edge
+        vector panics at call time (Option::unwrap on None); without null edges the call is `vcut` on the unwrapped edges *)
+Theorem C14_cut_call_guard_first_then_null_edges :
+  forall (A L : Type) (ltb leb : A -> A -> bool) (tmin tmax : A) (right add_bounds : bool)
+         (edges : list (option A)) (labels : list L) (xs : list (option A)),
+    (count_ok add_bounds edges labels = false ->
+       vcut_call ltb leb tmin tmax right add_bounds edges labels xs = Ok None) /\
+    (count_ok add_bounds edges labels = true -> In None edges ->
+       vcut_call ltb leb tmin tmax right add_bounds edges labels xs = Panic UnwrapNone) /\
+    (forall es, edges = map Some es ->
+       vcut_call ltb leb tmin tmax right add_bounds edges labels xs
+       = Ok (vcut ltb leb tmin tmax right add_bounds es labels xs)).
+Proof. intros; apply vcut_call_spec. Qed.
+
+(* (28) a label type WITHOUT a null (i32 labels): the iteration unwinds (T2::none() panics, DESIGN 5.4) exactly when the
+        input holds a null value; with a nullable label type nothing ever unwinds *)
+Theorem C14_cut_label_type_without_null :
+  forall (A L : Type) (ltb leb : A -> A -> bool) (tmin tmax : A) (nullable right add_bounds : bool)
+         (es : list A) (labels : list L) (xs : list (option A)),
+    collect_items nullable (map (cut1 ltb leb tmin tmax right add_bounds es labels) xs) =
+    if negb nullable && existsb (fun x => match x with None => true | Some _ => false end) xs
+    then Panic OtherPanic else Ok (map (cut1 ltb leb tmin tmax right add_bounds es labels) xs).
+Proof. intros; apply collect_items_spec. Qed.
+
+Example C14_ex_cut_call :
+  vcut_call Z.ltb Z.leb (-8) 7 true true [Some 2; None] [10; 11] [Some 1] = Ok None
+  /\ vcut_call Z.ltb Z.leb (-8) 7 true true [Some 2; None] [10; 11; 12] [Some 1] = Panic UnwrapNone
+  /\ vcut_call Z.ltb Z.leb (-8) 7 true true [Some 2; Some 5] [10; 11; 12] [Some 1; None]
+     = Ok (Some [Lab 10; NullLab])
+  /\ collect_items false [Lab 10; @NullLab Z] = Panic OtherPanic
+  /\ collect_items true [Lab 10; @NullLab Z] = Ok [Lab 10; NullLab].
+Proof. vm_compute. repeat split. Qed.
+
+(* ---- non-vacuity of the audit theorems -------------------------------------------------------------- *)
+
+(* premises of (18)/(21) at binary64, with a value on an edge, -0.0 against the edge 0.0, and +-inf under open bounds *)
+Example C14_ex_binary64_premises_and_values :
+  let e := [(-1.5)%float; 0%float; 2.25%float] in
+  Forall f64_ok e /\ ascendingF e /\ count_ok true e [10; 11; 12; 13] = true /\ f64_ok (-0)%float /\ f64_ok infinity
+  /\ map (cut1F neg_infinity infinity true true e [10; 11; 12; 13])
+         [Some (-0)%float; Some 0%float; Some 2.25%float; Some infinity; Some neg_infinity; Some 1e300%float; None]
+     = [Lab 11; Lab 11; Lab 12; Lab 13; Lab 10; Lab 13; NullLab]
+  /\ map (cut1F neg_infinity infinity false true e [10; 11; 12; 13])
+         [Some (-0)%float; Some 0%float; Some 2.25%float; Some infinity; Some neg_infinity]
+     = [Lab 12; Lab 12; Lab 13; Lab 13; Lab 10].
+Proof.
+  cbv zeta. split; [repeat constructor|]. split; [vm_compute; auto|]. split; [reflexivity|].
+  split; [reflexivity|]. split; [reflexivity|]. split; vm_compute; reflexivity.
+Qed.
+
+Example C14_ex_containsF :
+  containsF true true [(-1.5)%float; 0%float; 2.25%float] 1 (-0)%float
+  /\ containsF false false [(-1.5)%float; 0%float; 2.25%float] 1 0%float.
+Proof.
+  split.
+  - exists (GFin (-1.5)%float), (GFin 0%float). repeat split.
+  - exists (GFin 0%float), (GFin 2.25%float). repeat split.
+Qed.
+
+(* (24) on a series with an inner null: First does not treat the null as a separator, Last does; (25) *)
+Example C14_ex_unique_inner_null :
+  let xs := [Some 1; None; Some 1; Some 2; None; None; Some 2; Some 3] in
+  firstZ xs = [0; 3; 7]%nat /\ filter (g_first_b Z.eqb xs) (seq 0 (length xs)) = [0; 3; 7]%nat
+  /\ lastZ xs = [0; 2; 3; 6; 7]%nat /\ filter (g_last_of_run_b Z.eqb xs) (seq 0 (length xs)) = [0; 2; 3; 6; 7]%nat
+  /\ uniqZ xs = [1; 2; 3] /\ flat_map (cell_vals xs) (firstZ xs) = [1; 2; 3]
+  /\ last_valid (firstn 6 xs) None = Some 2.
+Proof. vm_compute. repeat split. Qed.
+
+Example C14_ex_unique_binary64 :
+  let xs := [None; Some (-0)%float; Some 0%float; Some 1.5%float; Some infinity; Some infinity; None] in
+  Forall okcF xs
+  /\ uidx_first PrimFloat.eqb xs = [1; 3; 4]%nat /\ uidx_last PrimFloat.eqb xs = [2; 3; 5]%nat
+  /\ vsorted_unique PrimFloat.eqb xs = [(-0)%float; 1.5%float; infinity].
+Proof.
+  cbv zeta. split; [repeat constructor|]. vm_compute. repeat split.
+Qed.
+
 Print Assumptions C14_cut_label_iff_enclosing_bin.
 Print Assumptions C14_cut_enclosing_bin_unique.
 Print Assumptions C14_cut_err_iff_outside_all_bins.
@@ -230,3 +532,26 @@ Print Assumptions C14_runs_decomposition.
 Print Assumptions C14_unique_values_distinct_and_complete.
 Print Assumptions C14_unique_idx_last_positional.
 Print Assumptions C14_unique_idx_first_positional.
+Print Assumptions C14_cut_first_match_any_carrier.
+Print Assumptions C14_cut_err_iff_any_carrier.
+Print Assumptions C14_cut_label_iff_ordered_carrier.
+Print Assumptions C14_cut_bin_unique_ordered_carrier.
+Print Assumptions C14_cut_open_bounds_total_ordered_carrier.
+Print Assumptions C14_cut_label_is_a_given_label.
+Print Assumptions C14_cut_type_bounds_irrelevant.
+Print Assumptions C14_cut_shape_any_carrier.
+Print Assumptions C14_carrier_laws.
+Print Assumptions C14_generic_spec_at_Z.
+Print Assumptions C14_cut_label_iff_enclosing_bin_binary64.
+Print Assumptions C14_cut_enclosing_bin_unique_binary64.
+Print Assumptions C14_cut_open_bounds_total_binary64.
+Print Assumptions C14_nan_edge_is_outside_the_property.
+Print Assumptions C14_unique_idx_valid_positions.
+Print Assumptions C14_unique_idx_last_positional_any_carrier.
+Print Assumptions C14_unique_idx_first_positional_any_series.
+Print Assumptions C14_nearest_non_null_cell.
+Print Assumptions C14_unique_values_are_first_cells.
+Print Assumptions C14_unique_positional_integer_any_series.
+Print Assumptions C14_unique_positional_binary64.
+Print Assumptions C14_cut_call_guard_first_then_null_edges.
+Print Assumptions C14_cut_label_type_without_null.
